@@ -3,6 +3,7 @@
 import glob
 import gzip
 import hashlib
+import re as _re_mod
 import json
 import os
 import re
@@ -428,7 +429,9 @@ class Program(object):
                 # `r = helper(..)` directly followed by the branch: the local that receives the result
                 res_vars = {x.get("var") for x in rest_evs if x["k"] == "decl" and x.get("var") and ((x.get("init") or {}).get("t") or "").strip() == (call.get("t") or "").strip()}
                 ctext_ = (call.get("t") or "").strip()
-                if not loop and all(x["k"] in ("cast", "use") or (x["k"] == "decl" and x.get("var") in res_vars) or
+                # (`if (!r)` on a std::optional / smart pointer result goes through its operator bool / has_value: part of the test)
+                engaged_test = lambda x: x["k"] == "call" and (x.get("callee") or "").rsplit("::", 1)[-1] in ("operator bool", "has_value") and (x.get("recv") or {}).get("v") in res_vars
+                if not loop and all(x["k"] in ("cast", "use") or (x["k"] == "decl" and x.get("var") in res_vars) or engaged_test(x) or
                                     (x["k"] == "cmp" and ctext_ and (((x.get("lhs") or {}).get("t") or "").strip() == ctext_ or ((x.get("rhs") or {}).get("t") or "").strip() == ctext_))
                                     for x in rest_evs):
                     on_call = ("c:" + (call.get("callee") or "")) in (t_.get("refs") or [])
@@ -665,6 +668,18 @@ class Program(object):
             blk = nf.blocks[bid]
             ir = [e for e in blk.elems if e["k"] == "iret" and e.get("of") == helper.id][-1]
             c = ir.get("const")
+            # a helper that returns std::optional<T>: `return std::nullopt` / `return {}` is the empty answer, a returned T an engaged
+            # one -- which is what the caller's `if (r)` / `if (!r)` / `r.has_value()` asks
+            if c is None and "optional<" in (helper.d.get("ret") or ""):
+                rt_ = (ir.get("t") or "").strip()
+                if rt_ in ("std::nullopt", "nullopt", "{}") or _re_mod.match(r"^std::optional<.*>\(\)$", rt_):
+                    c = False
+                elif rt_ and _re_mod.match(r"^[A-Za-z_]\w*$", rt_):
+                    # a named local of the helper: engaged when that local is not itself an optional
+                    dts_ = [d_.get("type") or "" for d_ in helper.events("decl") if (d_.get("var") or "").split("@")[0] == rt_]
+                    dts_ += [p_.get("type") or "" for p_ in helper.params if p_.get("name") == rt_]
+                    if dts_ and not any("optional" in x_ for x_ in dts_):
+                        c = True
             k_ = choose(c) if c is not None else None
             rv_ = (ir.get("val") or {}).get("v")
             if c is None and rv_ and t_.get("k") in ("if", "land", "lor", "while") and not t_.get("cmp") and is_subject(t_.get("core")) and len(rest.succs) == 2 and \
